@@ -434,6 +434,9 @@ func Run(r *corr.Run) {
 			sc()
 		}
 	}
+	for size := 1; size <= 4 && r.Issues() < 3; size++ {
+		multiqueueCase(r, size)
+	}
 	max := r.Pick(9000, 400000)
 	for i := 0; i < max && r.TimeLeft() && r.Issues() < 3; i++ {
 		randomCase(r, i%7 == 0)
